@@ -318,6 +318,52 @@ add(Entry('prim:regex(a(bb)*) over str', 'regex', _p_evenb, _e_evenb_text, _m_ev
           text=True, tail=_t_b, forms=('int', 'path', 'call', 'callpath')))
 
 
+def _p_reppair(draw):
+    k = d_repeat(draw)
+    return {'k': k, 'rf': d_rep_form(draw, k, ['int', 'path', 'path']),
+            'bad': d_pick(draw, (None, None, 0, 0, 1)) if k >= 2 else None}
+
+
+def _e_reppair(p):
+    """k repetitions of the two-symbol sentence 'ab'.  bad = i (< k-1): the 'b' of element i is missing, so that cycle i ends in a
+    non-accepting sub-state and what follows is again a run of valid elements: the machine must not complete."""
+    els = [b'ab'] * p['k']
+    bad = p.get('bad')
+    valid = True
+    if bad is not None and bad < p['k'] - 1:
+        els[bad] = b'a'
+        valid = False
+
+    def pairs(d):
+        arr = dig(d, 'rep.pair.input', None)
+        if arr is None:
+            return 0
+        if isinstance(arr, (list, tuple)) and len(arr) == 3 and arr[0] == 'array':
+            arr = arr[2]
+        txt = arr if isinstance(arr, str) else ''.join(x if isinstance(x, str) else chr(x) for x in arr)
+        return txt.count('ab')
+    return Enc(b''.join(els), valid=valid, k=p['k'], unit=2, results=pairs, predata=_rep_predata(p), zero=(p['k'] == 0),
+               classes=['reppair:' + ('valid' if valid else 'intermediate-element-incomplete')])
+
+
+def _m_reppair(p, **kw):
+    """dfa(repeat=k | '..k') around a sub-grammar whose sentence is exactly the two symbols 'a' 'b' (a symbol-restricted,
+    multi-state sub-grammar: a cycle can end in a non-accepting state)"""
+    cpppo, A, P = mods()
+    sa = A.state_input('A', context='pair')
+    sb = A.state_input('B', context='pair', terminal=True)
+    e = A.state('E')
+    e['a'] = sa
+    sa['b'] = sb
+    return A.dfa('rep', context='rep', initial=e, repeat=_rep_kw(p), **kw)
+
+
+add(Entry('prim:dfa_repeat_pair', 'primitive', _p_reppair, _e_reppair, _m_reppair, text=True, tail=_t_b,
+          forms=('int', 'path', 'call', 'callpath')))
+
+
+
+
 def _p_anystr(draw):
     return {'b': d_bytes(draw, 1, 10)}     # '.*' machines do not accept the empty sentence (C11's matter)
 
@@ -1062,10 +1108,9 @@ def enc_cpf(items, last_delta=0):
             valid = declared == len(body)
         E += struct.pack('<HH', typ, declared)
         if last:
-            if typ not in KNOWN_ITEM_TYPES and declared > 0:
-                greedy, soft = True, len(E) + declared
-            else:
-                ibound = len(E) + declared
+            # (an item of unrecognized type is read with repeat='.length' since the repository fix a2e75c0: its declared end is a
+            #  bound like any other)
+            ibound = len(E) + declared
         else:
             assert typ in KNOWN_ITEM_TYPES or declared == 0, 'unrecognized item with a body only in last position'
         E += body
